@@ -61,6 +61,13 @@ func VerifyEventAuthChain(ctx context.Context, eventToVerify PDU, provideEvents 
 		}
 		// add to the verified list
 		verifiedEvents[curr.EventID()] = true
+		// The auth check fetches auth events the provider did not hand over before.
+		// Those have been used to allow this event, so they must be verified as well.
+		for _, authEventID := range curr.AuthEventIDs() {
+			if authEvent := eventsByID[authEventID]; authEvent != nil && !verifiedEvents[authEventID] {
+				eventsToVerify = append(eventsToVerify, authEvent)
+			}
+		}
 	}
 	return nil
 }
